@@ -1025,12 +1025,14 @@ func runDesc(res *vkit.Result, d Desc, rng *rand.Rand, idx int) {
 		base = "/c16/ammo"
 	}
 	hclText, yamlText := d.HCL(rng), d.YAML()
-	hp, yp := base+".hcl", base+".yaml"
+	// the format is told by the extension, in whatever case it is written
+	exts := [][2]string{{".hcl", ".yaml"}, {".hcl", ".yaml"}, {".HCL", ".YAML"}, {".Hcl", ".Yaml"}, {".hCl", ".yAmL"}}[seq%5]
+	hp, yp := base+exts[0], base+exts[1]
 	_ = vkit.WriteMemAt(hp, []byte(hclText))
 	_ = vkit.WriteMemAt(yp, []byte(yamlText))
 	defer vkit.RemoveMem(hp)
 	defer vkit.RemoveMem(yp)
-	c := map[string]any{"idx": idx, "hcl": hclText, "yaml": yamlText}
+	c := map[string]any{"idx": idx, "hcl": hclText, "yaml": yamlText, "files": []string{hp, yp}}
 	fp := hclText + "\x00" + yamlText
 	hc, herr := sconfig.ReadAmmoConfig(vkit.Fs(), hp)
 	yc, yerr := sconfig.ReadAmmoConfig(vkit.Fs(), yp)
